@@ -1,8 +1,15 @@
 package main
 
 import (
+	"fmt"
+	"go/ast"
+	goparser "go/parser"
+	"go/token"
+	gotypes "go/types"
 	"os"
 	"path/filepath"
+	"sort"
+	"strings"
 
 	"k8s.io/gengo/parser"
 	"k8s.io/gengo/types"
@@ -170,5 +177,110 @@ func c11dirOf(p *types.Package) string { return p.SourcePath }
 // (v2 only: the v1 builder makes its universe from everything it was given)
 func c06secondUniverse(g *Gen, i int, prog []GenPkg) ([]string, bool) { return nil, false }
 
-// c01vendored: the vendored GOPATH layouts are a v2 case (packages.Load); v1's vendor handling is exercised by C03.
-func c01vendored(g *Gen) {}
+// c01vendored (v1): the vendored GOPATH layouts are a v2 case (packages.Load); v1's vendor handling is
+// exercised by C03. What v1 gets here instead is the other way in which "the direct imports of a package"
+// are more than one import list: a requested package of THREE files on disk -- one imports a package it
+// uses, one imports a package for its side effects only (blank import), one imports nothing -- in each of
+// the six orders in which the three can sort (k = 0..5, by construction). The direct imports gengo
+// reports are compared with those of the type checker run here on the same three files
+// (go/types, Package.Imports()), and every declaration of every file must be in the universe.
+type c01mapImporter map[string]*gotypes.Package
+
+func (m c01mapImporter) Import(path string) (*gotypes.Package, error) {
+	if p, ok := m[path]; ok {
+		return p, nil
+	}
+	return nil, fmt.Errorf("c01multifile: unknown import %q", path)
+}
+
+func c01vendored(g *Gen) {
+	perms := [][3]string{{"a.go", "b.go", "c.go"}, {"a.go", "c.go", "b.go"}, {"b.go", "a.go", "c.go"}, {"b.go", "c.go", "a.go"}, {"c.go", "a.go", "b.go"}, {"c.go", "b.go", "a.go"}}
+	srcRoot := filepath.Join(os.Getenv("GOPATH"), "src")
+	for k, names := range perms {
+		base := fmt.Sprintf("c01mf%d", k)
+		contents := [3]string{
+			"package foo\n\nimport \"" + base + "/dep\"\n\ntype A struct {\n\tD dep.D\n}\n",
+			"package foo\n\nimport _ \"" + base + "/side\"\n\ntype B int8\n",
+			"package foo\n\ntype C uint8\n",
+		}
+		tree := map[string]string{
+			base + "/dep/dep.go":   "package dep\n\ntype D struct {\n\tN int8\n}\n",
+			base + "/side/side.go": "package side\n\ntype S struct{}\n",
+		}
+		for j := 0; j < 3; j++ {
+			tree[base+"/foo/"+names[j]] = contents[j]
+		}
+		for rel, src := range tree {
+			full := filepath.Join(srcRoot, filepath.FromSlash(rel))
+			os.MkdirAll(filepath.Dir(full), 0755)
+			os.WriteFile(full, []byte(src), 0644)
+		}
+		// the type checker's answer
+		fset := token.NewFileSet()
+		imp := c01mapImporter{}
+		check := func(path string, rels ...string) *gotypes.Package {
+			var files []*ast.File
+			sort.Strings(rels)
+			for _, rel := range rels {
+				f, err := goparser.ParseFile(fset, rel, tree[rel], 0)
+				if err != nil {
+					panic(err)
+				}
+				files = append(files, f)
+			}
+			pk, err := (&gotypes.Config{Importer: imp}).Check(path, fset, files, nil)
+			if err != nil {
+				panic(fmt.Sprintf("c01multifile: the layout does not type-check: %v", err))
+			}
+			imp[path] = pk
+			return pk
+		}
+		check(base+"/dep", base+"/dep/dep.go")
+		check(base+"/side", base+"/side/side.go")
+		foo := check(base+"/foo", base+"/foo/a.go", base+"/foo/b.go", base+"/foo/c.go")
+		var want []string
+		for _, ip := range foo.Imports() {
+			want = append(want, ip.Path())
+		}
+		sort.Strings(want)
+		if len(want) != 2 {
+			panic(fmt.Sprintf("c01multifile: unexpected imports from the type checker: %q", want))
+		}
+		// gengo's answer
+		cwd, _ := os.Getwd()
+		os.Chdir(srcRoot)
+		b := parser.New()
+		err := b.AddDir(base + "/foo")
+		var u types.Universe
+		if err == nil {
+			u, err = b.FindTypes()
+		}
+		os.Chdir(cwd)
+		os.RemoveAll(filepath.Join(srcRoot, base))
+		if err != nil {
+			g.Emit("C01.multifile!", list(num(k), atom(err.Error())), boolS(false), "imports-of-a-package-of-several-files", "LOAD-ERROR")
+			continue
+		}
+		pk := u[base+"/foo"]
+		got := []string{}
+		ok := pk != nil
+		if pk != nil {
+			for path := range pk.Imports {
+				got = append(got, path)
+			}
+			for _, n := range []string{"A", "B", "C"} {
+				if pk.Types[n] == nil {
+					ok = false
+				}
+			}
+			if ok && (pk.Types["B"].Underlying != types.Int8 || len(pk.Types["A"].Members) != 1 || pk.Types["A"].Members[0].Type.Name.Package != base+"/dep") {
+				ok = false
+			}
+		}
+		sort.Strings(got)
+		if strings.Join(got, "\x00") != strings.Join(want, "\x00") {
+			ok = false
+		}
+		g.Emit("C01.multifile!", list(num(k), atoms(names[:]), atoms(want), atoms(got)), boolS(ok), "imports-of-a-package-of-several-files", fmt.Sprintf("file-order-%d", k))
+	}
+}
